@@ -316,7 +316,19 @@ def run_subcheck(mod, sc: SubCheck, tier: str, seedval: int, n_examples: int, kn
             except (OSError, TypeError, ValueError):
                 pass
         try:
-            labels = set(sc.body(case) or ())
+            try:
+                labels = set(sc.body(case) or ())
+            except (Violation, HarnessError, KeyboardInterrupt, SystemExit, MemoryError):
+                raise
+            except Exception as e:  # noqa: BLE001
+                # an exception that escapes OUTSIDE a cut() region: a harness error - unless it was raised by the
+                # code under test itself (innermost frame in the repository's package): the bodies only hand the
+                # code inputs of the stated domain, and the unchanged tree raises nothing here
+                tb = traceback.extract_tb(e.__traceback__)
+                last = tb[-1] if tb else None
+                if last is not None and (os.sep + "nuspacesim" + os.sep) in last.filename and "nssverif" not in last.filename:
+                    raise Violation(f"code under test raised {type(e).__name__}: {str(e)[:300]} at {os.path.basename(last.filename)}:{last.lineno} in {last.name}") from e
+                raise
         except Violation as v:
             kid = _match_known(mod, known, sc.name, case)
             if kid is not None:
@@ -395,6 +407,14 @@ def replay_case(mod, sc_name: str, case):
                 sc.body(case)
             except Violation as v:
                 return v.detail
+            except (HarnessError, KeyboardInterrupt, SystemExit, MemoryError):
+                raise
+            except Exception as e:  # noqa: BLE001 - see run_body: raised by the code under test itself
+                tb = traceback.extract_tb(e.__traceback__)
+                last = tb[-1] if tb else None
+                if last is not None and (os.sep + "nuspacesim" + os.sep) in last.filename and "nssverif" not in last.filename:
+                    return f"code under test raised {type(e).__name__}: {str(e)[:300]} at {os.path.basename(last.filename)}:{last.lineno} in {last.name}"
+                raise
             return None
     raise HarnessError(f"no sub-check {sc_name} in {mod.__name__}")
 
